@@ -82,6 +82,65 @@ modelled: `hi` must not exceed the length. -/
 def slice {α} (xs : List α) (lo hi : Int) : Option (List α) :=
   if 0 ≤ lo ∧ lo ≤ hi ∧ hi ≤ (xs.length : Int) then some ((xs.take hi.toNat).drop lo.toNat) else none
 
+/-- `xs[i] = v` on a local slice; `none` = index out of range (Go panics) -/
+def set {α} (xs : List α) (i : Int) (v : α) : Option (List α) :=
+  if 0 ≤ i ∧ i < (xs.length : Int) then some (xs.set i.toNat v) else none
+
+/-! ### strings and runes (Go language specification, "Conversions to and from a string type";
+package unicode/utf8): `[]rune(s)` decodes UTF-8 and yields U+FFFD for every byte that does not
+start a well-formed sequence; `string(rr)` encodes, with U+FFFD for surrogates and values outside
+0…0x10FFFF.  Runes are `int32` values, represented as `Int`. -/
+
+def isCont (b : Nat) : Bool := 128 ≤ b && b ≤ 191
+
+/-- first rune of a non-empty byte string and the number of bytes it occupies (≥ 1) -/
+def decodeRune : List UInt8 → Int × Nat
+  | [] => (65533, 0)
+  | b0 :: rest =>
+    let c0 := b0.toNat
+    let b (i : Nat) : Nat := (rest.getD i 0).toNat
+    let have_ (n : Nat) : Bool := n ≤ rest.length
+    if c0 < 128 then (c0, 1)
+    else if 194 ≤ c0 && c0 ≤ 223 then
+      if have_ 1 && isCont (b 0) then (((c0 % 32) * 64 + b 0 % 64 : Nat), 2) else (65533, 1)
+    else if 224 ≤ c0 && c0 ≤ 239 then
+      let lo := if c0 == 224 then 160 else 128
+      let hi := if c0 == 237 then 159 else 191
+      if have_ 2 && lo ≤ b 0 && b 0 ≤ hi && isCont (b 1) then
+        (((c0 % 16) * 4096 + (b 0 % 64) * 64 + b 1 % 64 : Nat), 3)
+      else (65533, 1)
+    else if 240 ≤ c0 && c0 ≤ 244 then
+      let lo := if c0 == 240 then 144 else 128
+      let hi := if c0 == 244 then 143 else 191
+      if have_ 3 && lo ≤ b 0 && b 0 ≤ hi && isCont (b 1) && isCont (b 2) then
+        (((c0 % 8) * 262144 + (b 0 % 64) * 4096 + (b 1 % 64) * 64 + b 2 % 64 : Nat), 4)
+      else (65533, 1)
+    else (65533, 1)
+
+def runesFuel : Nat → List UInt8 → List Int
+  | 0, _ => []
+  | _, [] => []
+  | fuel + 1, bs =>
+    let (r, w) := decodeRune bs
+    r :: runesFuel fuel (bs.drop (max w 1))
+
+/-- `[]rune(s)` -/
+def runes (s : List UInt8) : List Int := runesFuel s.length s
+
+/-- UTF-8 encoding of one rune (`utf8.AppendRune`) -/
+def encodeRune (r : Int) : List UInt8 :=
+  if r < 0 ∨ r > 1114111 ∨ (55296 ≤ r ∧ r ≤ 57343) then [239, 191, 189]
+  else
+    let n := r.toNat
+    if n < 128 then [UInt8.ofNat n]
+    else if n < 2048 then [UInt8.ofNat (192 + n / 64), UInt8.ofNat (128 + n % 64)]
+    else if n < 65536 then [UInt8.ofNat (224 + n / 4096), UInt8.ofNat (128 + n / 64 % 64), UInt8.ofNat (128 + n % 64)]
+    else [UInt8.ofNat (240 + n / 262144), UInt8.ofNat (128 + n / 4096 % 64), UInt8.ofNat (128 + n / 64 % 64),
+      UInt8.ofNat (128 + n % 64)]
+
+/-- `string(rr)` for a `[]rune` -/
+def stringOfRunes (rr : List Int) : List UInt8 := rr.flatMap encodeRune
+
 /-- explicit `panic(…)` -/
 def panic {α} : Option α := none
 
